@@ -8,6 +8,7 @@ import (
 	"go/token"
 	"go/types"
 	"os"
+	"sort"
 	"strings"
 )
 
@@ -172,68 +173,149 @@ func c02PosixLongest(c *Ctx, r *Report, rule string) {
 			continue
 		}
 		fg := NewFGraph(fd.Body, info)
-		fg.SolveFacts(analyseVars(info, fd))
-		// locals on which Longest() is called
-		longest := map[types.Object]bool{}
-		ast.Inspect(fd.Body, func(x ast.Node) bool {
-			if ce, ok := x.(*ast.CallExpr); ok && calleeName(info, ce) == "(*regexp.Regexp).Longest" {
-				if se, ok := ce.Fun.(*ast.SelectorExpr); ok {
-					if o := identObj(info, se.X); o != nil {
-						longest[o] = true
+		isPosixCtor := func(e ast.Expr) bool {
+			e = ast.Unparen(e)
+			if ce, ok := e.(*ast.CallExpr); ok {
+				nm := calleeName(info, ce)
+				return nm == "regexp.CompilePOSIX" || nm == "regexp.MustCompilePOSIX"
+			}
+			// the function value itself (compile = regexp.CompilePOSIX)
+			var id *ast.Ident
+			switch t := e.(type) {
+			case *ast.SelectorExpr:
+				id = t.Sel
+			case *ast.Ident:
+				id = t
+			}
+			if id != nil {
+				if f, ok := info.Uses[id].(*types.Func); ok && f.Pkg() != nil && f.Pkg().Path() == "regexp" {
+					return f.Name() == "CompilePOSIX" || f.Name() == "MustCompilePOSIX"
+				}
+			}
+			return false
+		}
+		type verdict struct {
+			pos token.Pos
+			res string
+			ok  bool
+		}
+		seen := map[token.Pos]*verdict{}
+		enumPaths(fg, fg.Entry, func(id int) bool { return id == fg.Exit }, func(nodes []int, edges []FEdge) {
+			for _, e := range edges {
+				if e.Cond == nil || e.Tag != nil {
+					continue
+				}
+				for _, at := range atomise(Fact{e.Cond, nil, e.Truth}) {
+					if identObj(info, at.Cond) == posix && !at.Truth {
+						return // the flag is known false on this path
 					}
 				}
 			}
-			return true
-		})
-		ast.Inspect(fd.Body, func(x ast.Node) bool {
-			if _, isLit := x.(*ast.FuncLit); isLit {
-				return false
+			var rs *ast.ReturnStmt
+			for i := len(nodes) - 1; i >= 0 && rs == nil; i-- {
+				rs, _ = fg.Nodes[nodes[i]].N.(*ast.ReturnStmt)
 			}
-			rs, ok := x.(*ast.ReturnStmt)
-			if !ok || len(rs.Results) == 0 {
-				return true
+			if rs == nil || len(rs.Results) == 0 {
+				return
 			}
 			res := ast.Unparen(rs.Results[0])
 			if id, ok := res.(*ast.Ident); ok && id.Name == "nil" {
-				return true
+				return
 			}
-			// may posix hold here?
-			posixFalse := false
-			for _, f := range fg.FactsAtPos(rs.Pos()) {
-				if f.Tag != nil {
-					continue
+			// last binding of a local on this path, and Longest() calls on it
+			lastDef := func(o types.Object) ast.Expr {
+				var def ast.Expr
+				for _, id := range nodes {
+					switch t := fg.Nodes[id].N.(type) {
+					case *ast.AssignStmt:
+						for i, l := range t.Lhs {
+							if identObj(info, l) != o {
+								continue
+							}
+							if len(t.Rhs) == len(t.Lhs) {
+								def = t.Rhs[i]
+							} else if len(t.Rhs) == 1 && i == 0 {
+								def = t.Rhs[0]
+							}
+						}
+					case *ast.DeclStmt:
+						if gd, ok := t.Decl.(*ast.GenDecl); ok {
+							for _, sp := range gd.Specs {
+								if vs, ok := sp.(*ast.ValueSpec); ok {
+									for i, nm := range vs.Names {
+										if info.Defs[nm] == o && i < len(vs.Values) {
+											def = vs.Values[i]
+										}
+									}
+								}
+							}
+						}
+					}
 				}
-				if identObj(info, f.Cond) == posix && !f.Truth {
-					posixFalse = true
-				}
-				if ue, ok := ast.Unparen(f.Cond).(*ast.UnaryExpr); ok && ue.Op == token.NOT && identObj(info, ue.X) == posix && f.Truth {
-					posixFalse = true
-				}
+				return def
 			}
-			if posixFalse {
-				return true
+			longestOn := func(o types.Object) bool {
+				for _, id := range nodes {
+					if x := fg.Nodes[id].N; x != nil {
+						for _, ce := range callsIn(x) {
+							if calleeName(info, ce) == "(*regexp.Regexp).Longest" {
+								if se, ok := ce.Fun.(*ast.SelectorExpr); ok && identObj(info, se.X) == o {
+									return true
+								}
+							}
+						}
+					}
+				}
+				return false
 			}
-			n++
 			okOrigin := false
 			switch t := res.(type) {
 			case *ast.CallExpr:
-				nm := calleeName(info, t)
-				okOrigin = nm == "regexp.CompilePOSIX" || nm == "regexp.MustCompilePOSIX"
-			case *ast.Ident:
-				o := info.Uses[t]
-				if longest[o] {
+				if isPosixCtor(t) {
 					okOrigin = true
-				} else if def := aliasDef(info, fd.Body, t); def != nil {
-					if ce, ok := ast.Unparen(def).(*ast.CallExpr); ok {
-						nm := calleeName(info, ce)
-						okOrigin = nm == "regexp.CompilePOSIX" || nm == "regexp.MustCompilePOSIX"
+				} else if fo, isVar := identObj(info, t.Fun).(*types.Var); isVar {
+					// a function-valued local: what it was last bound to on this path
+					if def := lastDef(fo); def != nil && isPosixCtor(def) {
+						okOrigin = true
+					}
+				}
+			case *ast.Ident:
+				if o := info.Uses[t]; o != nil {
+					if longestOn(o) {
+						okOrigin = true
+					} else if def := lastDef(o); def != nil {
+						if isPosixCtor(def) {
+							okOrigin = true
+						} else if ce, ok := ast.Unparen(def).(*ast.CallExpr); ok {
+							if fo, isVar := identObj(info, ce.Fun).(*types.Var); isVar {
+								if d2 := lastDef(fo); d2 != nil && isPosixCtor(d2) {
+									okOrigin = true
+								}
+							}
+						}
 					}
 				}
 			}
-			r.Check(okOrigin, rule, fi.Name, "return "+exprStr(res), c.Pos(rs.Pos()), "flow: under the posix flag the expression comes from regexp.CompilePOSIX (or Longest() was called on it)",
-				"on a path where the posix flag may hold the function returns a regexp that was not built by regexp.CompilePOSIX and never had Longest() called: matching is leftmost-first, so {0}/{N} differ from the POSIX leftmost-longest match the flag selects (e.g. (warn|warning))")
-			return true
+			v := seen[rs.Pos()]
+			if v == nil {
+				v = &verdict{rs.Pos(), exprStr(res), true}
+				seen[rs.Pos()] = v
+			}
+			if !okOrigin {
+				v.ok = false
+			}
 		})
+		var poss []token.Pos
+		for p := range seen {
+			poss = append(poss, p)
+		}
+		sort.Slice(poss, func(i, j int) bool { return poss[i] < poss[j] })
+		for _, p := range poss {
+			v := seen[p]
+			n++
+			r.Check(v.ok, rule, fi.Name, "return "+v.res, c.Pos(v.pos), "path: on every path on which the posix flag may hold, the expression returned was built by regexp.CompilePOSIX (or Longest() was called on it)",
+				"on a path where the posix flag may hold the function returns a regexp that was not built by regexp.CompilePOSIX and never had Longest() called: matching is leftmost-first, so {0}/{N} differ from the POSIX leftmost-longest match the flag selects (e.g. (warn|warning))")
+		}
 	}
 	r.Floor(rule, 1, "buildRegexp's POSIX return")
 }
@@ -1117,16 +1199,34 @@ func c09ErrorsRecorded(c *Ctx, r *Report, rule string) {
 	}
 	if fi := c.MustFunc(r, rule, pkg, "(*CompilerErrors).inherit"); fi != nil {
 		info := fi.Pkg.TypesInfo
-		ok, why := false, "inherit does not range over the other error list"
+		ok, why := false, "inherit does not loop over the other error list"
 		ast.Inspect(fi.Decl.Body, func(x ast.Node) bool {
-			rs, isRange := x.(*ast.RangeStmt)
-			if !isRange || ok {
+			if ok {
+				return false
+			}
+			var body *ast.BlockStmt
+			var over ast.Expr
+			switch t := x.(type) {
+			case *ast.RangeStmt:
+				body, over = t.Body, t.X
+			case *ast.ForStmt:
+				// for i := 0; i < len(list); i++ { .. list[i] .. }
+				if be, isBin := ast.Unparen(t.Cond).(*ast.BinaryExpr); isBin && t.Post != nil {
+					for _, side := range []ast.Expr{be.X, be.Y} {
+						if ce, isCall := ast.Unparen(side).(*ast.CallExpr); isCall && calleeName(info, ce) == "builtin.len" && len(ce.Args) == 1 {
+							body, over = t.Body, ce.Args[0]
+						}
+					}
+				}
+			}
+			if body == nil {
 				return true
 			}
-			if fv := fieldVar(info, rs.X); fv == nil || fv.Name() != "Errors" {
+			over = unalias(info, fi.Decl, over)
+			if fv := fieldVar(info, over); fv == nil || fv.Name() != "Errors" {
 				return true
 			}
-			fg := NewFGraph(rs.Body, info)
+			fg := NewFGraph(body, info)
 			callsAdd := func(nd *FNode) bool {
 				if nd.N == nil {
 					return false
@@ -1146,7 +1246,7 @@ func c09ErrorsRecorded(c *Ctx, r *Report, rule string) {
 				return false
 			}
 			branches := false
-			ast.Inspect(rs.Body, func(y ast.Node) bool {
+			ast.Inspect(body, func(y ast.Node) bool {
 				switch y.(type) {
 				case *ast.BranchStmt, *ast.ReturnStmt:
 					branches = true
